@@ -32,6 +32,9 @@ FIELD_TYPES = {
 # field -> lock field on the same object that protects it (DESIGN Appendix B)
 PROTECTED = {
     "_me_done_callbacks": "_me_lock",
+    # every state transition of a library future happens under its _me_lock (static FR obligations
+    # `state transition ... happens under _me_lock`), so its state is stable for the holder of that lock
+    "$fstate": "_me_lock", "$fresult": "_me_lock", "$fexc": "_me_lock",
 }
 
 # heap arrays never written after construction of their object (auto-checked by static FR)
